@@ -19,11 +19,21 @@ from fractions import Fraction
 from common.framework import PropertyCheck, frac_str
 
 MODES = ("constant", "reflect", "replicate")
-TRAILS = [[], [], [], [1], [2], [3], [2, 2], [1, 2], [0], [2, 0]]
-DTYPES = ("float32", "float32", "float64", "int64")
+TRAILS = [[], [], [], [1], [2], [3], [2, 2], [1, 2], [0], [2, 0], [2, 1, 2], [1, 1, 1], [1, 2, 1, 2]]
+DTYPES = ("float32", "float32", "float64", "int64", "float16", "int32", "bool")
+FLOAT_DTYPES = ("float32", "float64", "float16")
+VALUES = (-1, 0, 7)
+FRAC_VALUES = ("1/2", "-5/2")          # exact in every float dtype; only generated for float dtypes
+X_LAYOUTS = ("transposed", "strided", "offset", "expand_last", "expand0")
+IDX_LAYOUTS = ("strided", "transposed", "offset")
+CALLS = ("positional", "keyword", "defaults")
+FILLER = 901                            # content of the cells of a larger buffer that are NOT part of a view
 SIG_PAD_GT_T = "C09.replicate.pad_gt_T"
 SIG_T0 = "C09.chunk.empty_time_dim"
 SIG_PROP_PAIR = "C09.random_shift.prop_pair_rejected"
+SIG_BCAST = "C09.masked.broadcast_mask"
+SIG_F32 = "C09.random_shift.float32_bound"
+U_EXTREME = ("16777215/16777216", "8388607/8388608", "4194303/4194304", "1/16777216", "0", "1/2")
 
 
 def prod(l):
@@ -34,28 +44,82 @@ def prod(l):
 
 
 def mk_x(rng, N, T, F):
-    vals = rng.sample(range(1, 900), N * T * F) if N * T * F else []
+    vals = rng.sample(range(1, 900), N * T * F) if N * T * F <= 899 else [
+        rng.randrange(1, 900) for _ in range(N * T * F)]
     it = iter(vals)
     return [[[next(it) for _ in range(F)] for _ in range(T)] for _ in range(N)]
 
 
+def relayout(t, layout, torch):
+    """The same logical tensor in another memory layout (the cells of the underlying buffer that are not
+    part of the view hold FILLER). `expand*` need data that is constant along the expanded dimension."""
+    if layout in (None, "contig") or t.dim() == 0:
+        return t
+    fill = True if t.dtype == torch.bool else FILLER
+    if layout == "transposed":
+        return t.transpose(0, 1).contiguous().transpose(0, 1) if t.dim() >= 2 else t.clone()
+    if layout == "strided":
+        d = min(1, t.dim() - 1)
+        shape = list(t.shape)
+        shape[d] *= 2
+        big = torch.full(shape, fill, dtype=t.dtype)
+        idx = tuple(slice(0, None, 2) if i == d else slice(None) for i in range(t.dim()))
+        big[idx] = t
+        return big[idx]
+    if layout == "offset":
+        big = torch.full([n + 1 for n in t.shape], fill, dtype=t.dtype)
+        idx = tuple(slice(1, None) for _ in t.shape)
+        big[idx] = t
+        return big[idx]
+    if layout in ("expand_last", "expand0"):
+        d = t.dim() - 1 if layout == "expand_last" else 0
+        if (layout == "expand_last" and t.dim() < 3) or t.shape[d] == 0:
+            return t
+        v = t.narrow(d, 0, 1).expand(t.shape)
+        if not torch.equal(v, t):
+            raise AssertionError(f"harness: layout {layout} on data that varies along dimension {d}")
+        return v
+    raise AssertionError(f"harness: unknown layout {layout}")
+
+
 def tens(case, torch):
-    """(N, T, *trail) tensor from the nested N x T x F list."""
+    """(N, T, *trail) tensor from the nested N x T x F list, in the case's dtype and memory layout."""
     dt = getattr(torch, case.get("dtype", "float32"))
     shape = [case["N"], case["T"]] + list(case["trail"])
     if "outer_shape" in case:
         shape = list(case["outer_shape"]) + list(case["trail"])
     flat = [v for row in case["x"] for fr in row for v in fr]
-    return torch.tensor(flat, dtype=dt).reshape(shape)
+    return relayout(torch.tensor(flat, dtype=dt).reshape(shape), case.get("x_layout"), torch)
+
+
+def idx_tensor(vals, shape, case, torch):
+    """lens / pad / slices: integer tensor in the case's index dtype and layout."""
+    var = case.get("idx") or {}
+    t = torch.tensor(vals, dtype=getattr(torch, var.get("dtype", "int64"))).reshape(shape)
+    return relayout(t, var.get("layout"), torch)
 
 
 def num(v):
+    if isinstance(v, Fraction):
+        return int(v) if v.denominator == 1 else frac_str(v)
     v = float(v) if not isinstance(v, (int, bool)) else v
     if isinstance(v, bool):
         return int(v)
     if isinstance(v, int):
         return v
     return int(v) if v == int(v) else frac_str(v)
+
+
+def value_frac(case):
+    return Fraction(case["value"])
+
+
+def value_obs(case):
+    """what a cell holding the pad value looks like in an observation"""
+    v = value_frac(case)
+    if case.get("dtype") == "bool":
+        return int(v != 0)
+    return num(v)
 
 
 def rows_of(t, N, F):
@@ -80,7 +144,7 @@ def patched_rand_like(draws, record):
             r = saved(t, *a, **k)
             record.append(r.clone())
             return r
-        r = torch.tensor([[float(Fraction(u)) for u in row] for row in draws], dtype=t.dtype,
+        r = torch.tensor([[float(Fraction(u)) for u in row] for row in draws], dtype=k.get("dtype") or t.dtype,
                          device=t.device).reshape(t.shape)
         record.append(r)
         return r
@@ -94,19 +158,29 @@ def patched_rand_like(draws, record):
 
 class C09(PropertyCheck):
     pid = "C09"
-    rule = ("random batches: N 1..4 (0 in a boundary stream), T 0..6, 0-2 trailing dims (sizes 0..3), "
-            "distinct integer cell values, dtype float32/float64/int64, lens 0..T (>= 1 for reflect/replicate), "
-            "pads 0..2T (reflect: < len), slices in [-T-2, 2T]^2 with forced patterns (wholly left, wholly right, "
-            "empty, inverted), boolean masks, random_shift with chosen dyadic draws / recorded genuine draws, "
-            "training and eval; functional and module entry points; malformed stream (wrong ranks, shapes, "
-            "modes, illegal pads). Non-trivial: some non-zero pad / a slice reaching outside [0,len) / a mask "
-            "with both values / a non-zero shift. distinct by the whole case")
+    rule = ("random batches: N 1..4 (0 in a boundary stream, up to 7 in a size stream), T 0..6 (up to 17 in the "
+            "size stream, up to 40 in the rounding stream), 0-4 trailing dims (sizes 0..3), integer cell values, "
+            "dtype float32/float64/float16/int64/int32/bool, x contiguous / transposed strides / strided view / "
+            "offset view / expanded along the batch or the last dimension, lens-pad-slices int64 or int32 and "
+            "contiguous / strided / transposed / offset, pad value -1, 0, 7 (float or python int) and 1/2, -5/2 "
+            "(float dtypes), positional / keyword / defaults-omitted calls, lens 0..T (>= 1 for "
+            "reflect/replicate), pads 0..2T (reflect: < len), slices in [-T-2, 2T]^2 with forced patterns "
+            "(wholly left, wholly right, empty, inverted), boolean masks (given full, transposed, strided, "
+            "caller-expanded or in a broadcastable (N,1)/(1,T) shape), random_shift with chosen dyadic draws / "
+            "recorded genuine draws / extreme float32 draws with proportions k/len that float32 rounds up, "
+            "training and eval set directly, after toggling, and through a parent module; functional, module, "
+            "module-inside-a-parent and pydrobert.torch.util entry points; arguments must come back unmodified; "
+            "malformed stream (wrong ranks, shapes, modes, illegal pads). Non-trivial: some non-zero pad / a "
+            "slice reaching outside [0,len) / a mask with both values / a non-zero shift. distinct by the whole "
+            "case")
     assumptions = [
         "a model cell is one frame: the trailing dimensions are flattened and every mask is expanded along them",
         "torch masked_select / masked_scatter / gather / boolean indexing taken at their documented row-major meaning",
-        "integer-valued data: float arithmetic of the implementation is exact on the generated inputs",
-        "random_shift: uniform draws injected through torch.rand_like; float32 rounding of prop*len*u not modelled "
-        "(cases where it changes the floor are counted as rounding ties and only get the draw-free predicate)",
+        "integer- or half-integer-valued data: float arithmetic of the implementation is exact on the generated "
+        "inputs (a fractional pad value reaches the integer-celled model scaled by its denominator)",
+        "random_shift: uniform draws injected through torch.rand_like; the model computes floor(prop*len*u) in exact "
+        "rational arithmetic with prop the configured double; cases where IEEE double arithmetic (what the repaired "
+        "code does) gives another floor are counted as rounding ties and only get the draw-free predicate",
     ]
     quick_budget_s = 75
     thorough_budget_s = 800
@@ -115,8 +189,9 @@ class C09(PropertyCheck):
     def cases(self, rng, tier):
         n = {"quick": 1, "thorough": 9, "search": 5}[tier]
         yield from self.edge_cases()
-        gens = [self.gen_pad(rng, 1100 * n), self.gen_chunk(rng, 1300 * n), self.gen_masked(rng, 250 * n),
-                self.gen_shift(rng, 350 * n), self.gen_malformed(rng, 160 * n)]
+        gens = [self.gen_pad(rng, 1100 * n), self.gen_chunk(rng, 1300 * n), self.gen_masked(rng, 350 * n),
+                self.gen_shift(rng, 400 * n), self.gen_malformed(rng, 175 * n),
+                self.gen_shift_rounding(rng, 150 * n), self.gen_sizes(rng, 120 * n)]
         if tier != "quick":
             gens.append(self.gen_exhaustive())
         # interleave so that a budget cut does not starve one stream
@@ -137,6 +212,18 @@ class C09(PropertyCheck):
                        entry="module")
             yield dict(base, fn="pad", mode=mode, N=2, T=0, x=[[], []], lens=[0, 0], pad0=[1, 0], pad1=[0, 2])
             yield dict(base, fn="pad", mode=mode, N=1, T=2, x=[[[5], [6]]], lens=[2], pad0=[0], pad1=[0])
+            # random_shift on an empty batch: identity in eval mode, pad_variable's error in training mode
+            for training in (True, False):
+                for entry in ("functional", "module", "module_parent"):
+                    yield dict(base, fn="shift", mode=mode, N=0, T=3, x=[], lens=[], p0="1/2", p1="1",
+                               training=training, draws=[[], []], entry=entry)
+        for bf in (True, False):
+            for N, T in ((0, 3), (3, 0), (0, 0)):
+                x = [[[] for _ in range(T)] for _ in range(N)] if bf else [[[] for _ in range(N)] for _ in range(T)]
+                yield {"fn": "masked", "entry": "functional", "dtype": "float32", "trail": [], "value": -1,
+                       "N": N, "T": T, "outer_shape": [N, T] if bf else [T, N],
+                       "x": [[[1] for _ in r] for r in x], "mask": [[True for _ in r] for r in x],
+                       "batch_first": bf}
 
     def gen_exhaustive(self):
         """N = 2, T = 2: every lens / pad combination with pads <= 3 (thorough only)."""
@@ -171,9 +258,50 @@ class C09(PropertyCheck):
         T = rng.choice([1, 1, 2, 3, 4, 5, 6, 6]) if rng.random() > 0.04 else 0
         trail = rng.choice(TRAILS)
         F = prod(trail)
-        return {"fn": fn, "entry": rng.choice(["functional", "module"]), "dtype": rng.choice(DTYPES),
-                "trail": trail, "value": rng.choice([-1, 0, 7]), "mode": mode, "N": N, "T": T,
-                "x": mk_x(rng, N, T, F)}
+        c = {"fn": fn, "entry": rng.choice(["functional", "module"]), "dtype": rng.choice(DTYPES),
+             "trail": trail, "value": rng.choice(VALUES), "mode": mode, "N": N, "T": T,
+             "x": mk_x(rng, N, T, F)}
+        self.vary(rng, c)
+        return c
+
+    def vary(self, rng, c, x_key="x"):
+        """The options that must not matter: memory layout of x, dtype / layout of the index tensors, how
+        the pad value is given, call style, which alias / wrapper is called. About half of the cases stay
+        plain in each respect. Mutates c."""
+        fn = c["fn"]
+        N, T, trail = c["N"], c["T"], c["trail"]
+        if c["dtype"] == "bool":
+            c[x_key] = [[[v & 1 for v in fr] for fr in row] for row in c[x_key]]
+        if c["dtype"] in FLOAT_DTYPES and rng.random() < 0.25:
+            c["value"] = rng.choice(FRAC_VALUES)
+        elif rng.random() < 0.2:
+            c["value_kind"] = "int"                     # a python int where a float is documented
+        if rng.random() < 0.45:
+            lay = rng.choice(X_LAYOUTS)
+            if lay == "expand_last":
+                # frames constant along the last trailing dimension
+                if trail and trail[-1] >= 1 and prod(trail):
+                    k = trail[-1]
+                    c[x_key] = [[[fr[i * k] for i in range(len(fr) // k) for _ in range(k)] for fr in row]
+                                for row in c[x_key]]
+                    c["x_layout"] = lay
+            elif lay == "expand0":
+                # all rows of the first dimension identical (only the per-row requests differ)
+                if fn != "masked" and N >= 1:
+                    c[x_key] = [[list(fr) for fr in c[x_key][0]] for _ in range(N)]
+                    c["x_layout"] = lay
+            else:
+                c["x_layout"] = lay
+        if fn != "masked" and rng.random() < 0.45:
+            c["idx"] = {"dtype": rng.choice(["int64", "int32"]), "layout": rng.choice(IDX_LAYOUTS + ("contig",))}
+        r = rng.random()
+        if r < 0.5:
+            c["call"] = rng.choice(CALLS[1:])
+        if c["entry"] == "module" and rng.random() < 0.3:
+            c["entry"] = "module_parent"
+            c["parent_eval"] = rng.random() < 0.5      # train/eval must not matter for pad / chunk / masked
+        elif c["entry"] == "functional" and fn == "pad" and rng.random() < 0.15:
+            c["entry"] = "util"                         # pydrobert.torch.util.pad_variable
 
     def gen_pad(self, rng, count):
         for _ in range(count):
@@ -240,6 +368,8 @@ class C09(PropertyCheck):
     def gen_masked(self, rng, count):
         for _ in range(count):
             N, T = rng.randint(0, 4), rng.randint(0, 6)
+            if rng.random() < 0.06:
+                N, T = rng.randint(4, 7), rng.randint(6, 12)
             trail = rng.choice(TRAILS)
             F = prod(trail)
             bf = rng.random() < 0.5
@@ -252,9 +382,22 @@ class C09(PropertyCheck):
                 x = [[xb[n][t] for n in range(N)] for t in range(T)]
                 mask = [[mask_b[n][t] for n in range(N)] for t in range(T)]
                 outer = [T, N]
-            yield {"fn": "masked", "entry": rng.choice(["functional", "module"]), "dtype": rng.choice(DTYPES),
-                   "trail": trail, "value": rng.choice([-1, 0, 7]), "N": N, "T": T, "outer_shape": outer,
-                   "x": x, "mask": mask, "batch_first": bf}
+            c = {"fn": "masked", "entry": rng.choice(["functional", "module"]), "dtype": rng.choice(DTYPES),
+                 "trail": trail, "value": rng.choice(VALUES), "N": N, "T": T, "outer_shape": outer,
+                 "x": x, "mask": mask, "batch_first": bf}
+            self.vary(rng, c)
+            # how the mask is given: full / other strides / constant along one dimension and then either
+            # expanded by the caller or left in its broadcastable (size-1) shape, as documented
+            r = rng.random()
+            if r < 0.15:
+                c["mask_var"] = rng.choice(["transposed", "strided", "offset"])
+            elif r < 0.5:
+                d = rng.randrange(2)
+                if outer[d] >= 1:
+                    c["mask"] = [[c["mask"][0 if d == 0 else a][0 if d == 1 else b] for b in range(outer[1])]
+                                 for a in range(outer[0])]
+                    c["mask_var"] = rng.choice(["bcast", "expand"]) + str(d)
+            yield c
 
     def gen_shift(self, rng, count):
         for i in range(count):
@@ -277,8 +420,74 @@ class C09(PropertyCheck):
             else:
                 c["draws"] = None          # genuine torch.rand_like, recorded
                 c["torch_seed"] = rng.randrange(1 << 30)
-            if c["dtype"] == "int64":
-                c["dtype"] = "float32"
+            if c["entry"] in ("module", "module_parent") and rng.random() < 0.4:
+                # the flag that counts is the last one set (directly or through the parent)
+                c["pre_modes"] = [rng.random() < 0.5 for _ in range(rng.randint(1, 2))]
+            yield c
+
+    def gen_shift_rounding(self, rng, count):
+        """Proportions the way users write them (k/len, 0.1, 1/3: doubles that float32 rounds up or down)
+        with lengths that make prop*len border an integer, and the extreme float32 draws."""
+        nice = [1 / 3, 2 / 3, 1 / 7, 0.1, 0.3, 0.7, 0.9, 7 / 13, 1.1, 1 / 9, 5 / 11]
+        for _ in range(count):
+            mode = rng.choice(MODES)
+            N = rng.randint(1, 2)
+            lens, props = [], []
+            L = rng.randint(3, 40)
+            for side in range(2):
+                r = rng.random()
+                if r < 0.6:
+                    k = rng.randint(1, L if mode == "reflect" else 2 * L)
+                    p = k / L
+                elif r < 0.9:
+                    p = rng.choice(nice)
+                else:
+                    p = rng.random() * (1 if mode == "reflect" else 2)
+                if mode == "reflect":
+                    p = min(p, 1.0)
+                props.append(p)
+            lens = [L] + [rng.randint(1, L) for _ in range(N - 1)]
+            rng.shuffle(lens)
+            c = {"fn": "shift", "entry": rng.choice(["functional", "module", "module_parent"]),
+                 "dtype": rng.choice(["float32", "float64", "int64"]), "trail": [], "value": rng.choice(VALUES),
+                 "mode": mode, "N": N, "T": L, "x": mk_x(rng, N, L, 1), "lens": lens,
+                 "p0": frac_str(props[0]), "p1": frac_str(props[1]), "training": True, "stream": "rounding",
+                 "draws": [[rng.choice(U_EXTREME[:3]) if rng.random() < 0.8 else rng.choice(U_EXTREME)
+                            for _ in range(N)] for _ in range(2)]}
+            if rng.random() < 0.3:
+                c["p1"] = c["p0"]
+                c["scalar_prop"] = True
+            yield c
+
+    def gen_sizes(self, rng, count):
+        """Larger batches / time dimensions than the main streams (plain options)."""
+        for i in range(count):
+            fn = ("pad", "chunk", "shift")[i % 3]
+            mode = rng.choice(MODES)
+            N, T = rng.randint(3, 7), rng.randint(7, 17)
+            trail = rng.choice([[], [2], [1, 2]])
+            lo = 0 if mode == "constant" else 1
+            c = {"fn": fn, "entry": rng.choice(["functional", "module"]), "dtype": rng.choice(DTYPES[:4]),
+                 "trail": trail, "value": rng.choice(VALUES), "mode": mode, "N": N, "T": T,
+                 "x": mk_x(rng, N, T, prod(trail)), "stream": "sizes"}
+            lens = [rng.randint(max(lo, 1), T) for _ in range(N)]
+            if fn == "pad":
+                pads = [[rng.randint(0, ln - 1) if mode == "reflect" else rng.randint(0, 2 * T) for ln in lens]
+                        for _ in range(2)]
+                c.update(lens=lens, pad0=pads[0], pad1=pads[1])
+            elif fn == "chunk":
+                for _try in range(40):
+                    sl = [[rng.randint(-T - 2, 2 * T), rng.randint(-T - 2, 2 * T)] for _ in range(N)]
+                    if mode != "reflect" or self.reflect_legal(sl, lens):
+                        break
+                else:
+                    sl = [[-(ln - 1), 2 * ln - 1] for ln in lens]
+                c.update(lens=lens, slices=sl)
+            else:
+                hi = 4 if mode == "reflect" else 8
+                c.update(lens=lens, p0=frac_str(Fraction(rng.randint(0, hi), 4)),
+                         p1=frac_str(Fraction(rng.randint(0, hi), 4)), training=True,
+                         draws=[[frac_str(Fraction(rng.randrange(64), 64)) for _ in range(N)] for _ in range(2)])
             yield c
 
     def gen_malformed(self, rng, count):
@@ -336,60 +545,152 @@ class C09(PropertyCheck):
         fn = case["fn"]
         F = prod(case["trail"])
         N = case["N"]
-        lt = lambda l: torch.tensor(l, dtype=torch.long).reshape(len(l))
-        value = float(case["value"])
-        module = case["entry"] == "module"
+        vf = value_frac(case)
+        value = int(vf) if case.get("value_kind") == "int" and vf.denominator == 1 else float(vf)
+        entry = case.get("entry", "functional")
+        style = case.get("call", "positional")
+        x = tens(case, torch)
+        watched = [("x", x)]
+
+        def watch(name, t):
+            watched.append((name, t))
+            return t
+
+        def call(f, tensors, options, defaults):
+            """f(tensors..., options...) in the case's call style. `defaults` = documented defaults: the style
+            'defaults' omits every option that equals its documented default (a changed default shows)."""
+            if style == "positional":
+                return f(*[v for _, v in tensors], *[v for _, v in options])
+            if style == "keyword":
+                return f(**dict(tensors), **dict(options))
+            kw = {k: v for k, v in options if not (k in defaults and same_opt(v, defaults[k]))}
+            ts = list(tensors)
+            while ts and ts[-1][1] is None and ts[-1][0] in defaults:
+                ts.pop()                                    # a trailing optional tensor (lens=None)
+            return f(*[v for _, v in ts], **kw)
+
+        def same_opt(a, b):
+            return type(a) in (int, float, bool, str) and a == b and isinstance(a, bool) == isinstance(b, bool)
+
+        def module_of(cls, ctor_opts, defaults, training=None):
+            m = call(cls, [], ctor_opts, defaults)
+            for b in case.get("pre_modes") or []:
+                m.train(b)
+            if entry == "module_parent":
+                class Parent(torch.nn.Module):
+                    def __init__(self, child):
+                        super().__init__()
+                        self.stack = torch.nn.ModuleList([torch.nn.Identity(), child])
+
+                    def forward(self, *a, **k):
+                        return self.stack[1](*a, **k)
+
+                parent = Parent(m)
+                for b in case.get("pre_modes") or []:
+                    parent.train(b)
+                if training is not None:
+                    parent.train(training)
+                elif case.get("parent_eval"):
+                    parent.eval()
+                return parent
+            if training is not None:
+                m.train(training)
+            return m
+
+        def finish(obs, snap):
+            changed = [name for (name, t), old in zip(watched, snap)
+                       if t.shape != old.shape or not torch.equal(t, old)]
+            if changed:
+                obs["args_changed"] = changed
+            return obs
+
+        is_module = entry in ("module", "module_parent")
         if fn == "pad":
-            x = tens(case, torch)
-            pad = torch.tensor([case["pad0"], case["pad1"]], dtype=torch.long).reshape(2, len(case["pad0"]))
-            if module:
-                out = Md.PadVariable(case["mode"], value)(x, lt(case["lens"]), pad)
+            lens = watch("lens", idx_tensor(case["lens"], [len(case["lens"])], case, torch))
+            pad = watch("pad", idx_tensor([case["pad0"], case["pad1"]], [2, len(case["pad0"])], case, torch))
+            snap = [t.clone() for _, t in watched]
+            tensors = [("x", x), ("lens", lens), ("pad", pad)]
+            opts = [("mode", case["mode"]), ("value", value)]
+            dfl = {"mode": "constant", "value": 0.0}
+            if is_module:
+                out = call(module_of(Md.PadVariable, opts, dfl), tensors, [], {})
+            elif entry == "util":
+                import pydrobert.torch.util as Ut
+                out = call(Ut.pad_variable, tensors, opts, dfl)
             else:
-                out = Fn.pad_variable(x, lt(case["lens"]), pad, case["mode"], value)
+                out = call(Fn.pad_variable, tensors, opts, dfl)
             want = [a + b + c for a, b, c in zip(case["lens"], case["pad0"], case["pad1"])]
             rows = rows_of(out, N, F)
-            return {"shape": list(out.shape), "dtype": str(out.dtype).split(".")[-1],
-                    "rows": [r[:w] for r, w in zip(rows, want)]}
+            return finish({"shape": list(out.shape), "dtype": str(out.dtype).split(".")[-1],
+                           "rows": [r[:w] for r, w in zip(rows, want)]}, snap)
         if fn == "chunk":
-            x = tens(case, torch)
-            sl = torch.tensor(case["slices"], dtype=torch.long).reshape(len(case["slices"]), 2)
-            lens = None if case["lens"] is None else lt(case["lens"])
-            if module:
-                out, ol = Md.ChunkBySlices(case["mode"], value)(x, sl, lens)
+            sl = watch("slices", idx_tensor(case["slices"], [len(case["slices"]), 2], case, torch))
+            lens = None if case["lens"] is None else watch(
+                "lens", idx_tensor(case["lens"], [len(case["lens"])], case, torch))
+            snap = [t.clone() for _, t in watched]
+            tensors = [("x", x), ("slices", sl), ("lens", lens)]
+            opts = [("mode", case["mode"]), ("value", value)]
+            dfl = {"mode": "constant", "value": 0.0, "lens": None}
+            if is_module:
+                out, ol = call(module_of(Md.ChunkBySlices, opts, dfl), tensors, [], dfl)
             else:
-                out, ol = Fn.chunk_by_slices(x, sl, lens, case["mode"], value)
+                out, ol = call(Fn.chunk_by_slices, tensors, opts, dfl)
             ol = [int(v) for v in ol.tolist()]
             rows = rows_of(out, N, F)
-            return {"shape": list(out.shape), "dtype": str(out.dtype).split(".")[-1], "lens": ol,
-                    "rows": [r[:max(w, 0)] for r, w in zip(rows, ol)]}
+            return finish({"shape": list(out.shape), "dtype": str(out.dtype).split(".")[-1], "lens": ol,
+                           "rows": [r[:max(w, 0)] for r, w in zip(rows, ol)]}, snap)
         if fn == "masked":
-            x = tens(case, torch)
-            mask = torch.tensor([b for row in case["mask"] for b in row], dtype=torch.bool).reshape(
-                case["outer_shape"])
+            outer = case["outer_shape"]
+            mask = torch.tensor([b for row in case["mask"] for b in row], dtype=torch.bool).reshape(outer)
+            mv = case.get("mask_var")
+            raw_counts = None
+            if mv in ("transposed", "strided", "offset"):
+                mask = relayout(mask, mv, torch)
+            elif mv:
+                d = int(mv[-1])
+                small = mask.narrow(d, 0, 1).clone()
+                if not torch.equal(small.expand(outer), mask):
+                    raise AssertionError("harness: mask is not constant along the broadcast dimension")
+                mask = small.expand(outer) if mv.startswith("expand") else small
+                sb = small if case["batch_first"] else small.transpose(0, 1)
+                raw_counts = [int(v) for v in sb.sum(1).tolist()]
+            watch("mask", mask)
+            snap = [t.clone() for _, t in watched]
             bf = case["batch_first"]
-            if module:
-                out, ol = Md.PadMaskedSequence(bf, value)(x, mask)
+            tensors = [("x", x), ("mask", mask)]
+            opts = [("batch_first", bf), ("padding_value", value)]
+            dfl = {"batch_first": False, "padding_value": 0.0}
+            if is_module:
+                out, ol = call(module_of(Md.PadMaskedSequence, opts, dfl), tensors, [], {})
             else:
-                out, ol = Fn.pad_masked_sequence(x, mask, bf, value)
+                out, ol = call(Fn.pad_masked_sequence, tensors, opts, dfl)
             same_shape = list(out.shape) == list(x.shape)
             ob = out if bf else out.transpose(0, 1)
-            return {"shape_kept": same_shape, "dtype": str(out.dtype).split(".")[-1],
-                    "lens": [int(v) for v in ol.tolist()], "rows": rows_of(ob, N, F)}
+            obs = {"shape_kept": same_shape, "dtype": str(out.dtype).split(".")[-1],
+                   "lens": [int(v) for v in ol.tolist()], "rows": rows_of(ob, N, F) if same_shape else None,
+                   "shape": list(out.shape)}
+            if raw_counts is not None:
+                obs["raw_mask_counts"] = raw_counts
+            return finish(obs, snap)
         if fn == "shift":
-            x = tens(case, torch)
             prop = (float(Fraction(case["p0"])), float(Fraction(case["p1"])))
+            lens = watch("lens", idx_tensor(case["lens"], [len(case["lens"])], case, torch))
+            snap = [t.clone() for _, t in watched]
             rec = []
             if case.get("torch_seed") is not None:
                 torch.manual_seed(case["torch_seed"])
+            tensors = [("input", x), ("in_lens", lens)]
             with patched_rand_like(case["draws"], rec):
-                if module:
+                if is_module:
                     # the documented single-number form when both sides are equal and the case asks for it
                     arg = prop[0] if case.get("scalar_prop") and prop[0] == prop[1] else prop
-                    m = Md.RandomShift(arg, case["mode"], value)
-                    m.train(case["training"])
-                    out, ol = m(x, lt(case["lens"]))
+                    m = module_of(Md.RandomShift, [("prop", arg), ("mode", case["mode"]), ("value", value)],
+                                  {"mode": "reflect", "value": 0.0}, training=case["training"])
+                    out, ol = call(m, tensors, [], {})
                 else:
-                    out, ol = Fn.random_shift(x, lt(case["lens"]), prop, case["mode"], value, case["training"])
+                    out, ol = call(Fn.random_shift, tensors,
+                                   [("prop", prop), ("mode", case["mode"]), ("value", value),
+                                    ("training", case["training"])], {"training": True})
             ol = [int(v) for v in ol.tolist()]
             rows = rows_of(out, N, F)
             obs = {"shape": list(out.shape), "dtype": str(out.dtype).split(".")[-1], "lens": ol,
@@ -397,17 +698,23 @@ class C09(PropertyCheck):
                    "same_object": bool(out is x), "n_draw_calls": len(rec)}
             if rec:
                 obs["draws"] = [[frac_str(float(v)) for v in row] for row in rec[0].reshape(2, -1).tolist()]
-                # would float32 rounding change a floor?  (prop*len is exact: quarters times small ints)
+                # the amounts IEEE double arithmetic (the repaired code) and float32 arithmetic (the code before
+                # fixes/C09-random-shift-float32-bound.diff) give, next to the exact floor the model computes
                 import numpy as np
-                tie = False
+                tie, f32, exact = False, [], []
                 for side, p in enumerate(prop):
                     for n, u in enumerate(rec[0].reshape(2, -1)[side].tolist()):
-                        a = np.float32(p) * np.float32(case["lens"][n])
-                        f32 = int(np.float32(a) * np.float32(u))
-                        ex = int(Fraction(p) * case["lens"][n] * Fraction(float(u)))
-                        tie = tie or f32 != ex
+                        L = case["lens"][n]
+                        a32 = np.float32(np.float32(p) * np.float32(L))
+                        f32.append(int(np.float32(a32 * np.float32(u))))
+                        ex = int(Fraction(p) * L * Fraction(float(u)))
+                        exact.append(ex)
+                        tie = tie or int((p * float(L)) * float(u)) != ex
                 obs["rounding_tie"] = tie
-            return obs
+                k = len(f32) // 2
+                obs["f32_lens"] = [L + a + b for L, a, b in zip(case["lens"], f32[:k], f32[k:])]
+                obs["exact_lens"] = [L + a + b for L, a, b in zip(case["lens"], exact[:k], exact[k:])]
+            return finish(obs, snap)
         raise ValueError(f"unknown fn {fn}")
 
     EXPECT = {
